@@ -1,6 +1,6 @@
 import os, subprocess, vf
 from pbase import Base
-import gen_codes
+import gen_codes, gen_rs2v
 
 
 class Property(Base):
@@ -11,7 +11,8 @@ class Property(Base):
     shrink_ops = True
     trusted_base = Base.COMMON_TB + [
         "translator T2 (translators/gen_codes.py): WriteResult numbering regenerated from core/src/write.rs",
-        "hand-transcribed model of provider/src/write/state.rs and write.rs (coq/theories/Write/Writer.v) and of the rmp 0.8.15 encoders (coq/theories/Msgpack/Rmp.v), tied to the code by the correspondence after EVERY call (status + current output bytes through hook verif_output_bytes)",
+        "translator T8 (translators/rs2v, syn-based Rust-subset -> Gallina): provider/src/write/state.rs is REGENERATED into Gen/StateGen.v on every run; theorems C03_code_* prove the state-machine functions of Write/Writer.v equal to it for all inputs (trusted: the translation scheme of rs2v and Base/RsPrelude.v: usize arithmetic wraps or panics, Vec = list in push order)",
+        "hand-transcribed model of provider/src/write.rs (the glue around the state machine: which transition each ABI call makes, which bytes it appends) (coq/theories/Write/Writer.v) and of the rmp 0.8.15 encoders (coq/theories/Msgpack/Rmp.v), tied to the code by the correspondence after EVERY call (status + current output bytes through hook verif_output_bytes)",
         "abstract document builder coq/theories/Write/WSpec.v and token grammar Write/Grammar.v are the specification",
     ]
     assumptions = [
@@ -22,7 +23,8 @@ class Property(Base):
 
     def regen(self):
         changed, info = gen_codes.generate(vf.REPO, os.path.join(vf.COQ, "theories/Gen/CodesGen.v"))
-        return {"WriteResult": info["WriteResult"]}
+        t8 = gen_rs2v.generate(vf.REPO, "StateGen")
+        return {"WriteResult": info["WriteResult"], "T8": t8}
 
     def decode(self, digests):
         """hex outputs -> tree texts through the extracted decoder."""
